@@ -147,6 +147,16 @@ pub fn exported(s: Shape) -> Int {
   }
 }
 
+// several builtins applied three times each to the same constant, in one scope: the optimiser
+// hoists one shared partial application per (builtin, constant) - in some order
+pub fn exported3(a: Int, b: Int, c: Int) -> Int {
+  ( a + 1 ) * 2 + ( b + 1 ) * 2 + ( c + 1 ) * 2 + if a == 0 || b == 0 || c == 0 {
+    1
+  } else {
+    0
+  }
+}
+
 pub fn exported2(o: Option<Int>) -> Int {
   get(o) + c2
 }
@@ -237,6 +247,7 @@ fn histories(run: &mut Run, tier: Tier) -> (u64, u64, u64) {
         Item::Test("hist".into(), "t10".into()),
         Item::Fn("hist".into(), "exported".into()),
         Item::Fn("hist".into(), "exported2".into()),
+        Item::Fn("hist".into(), "exported3".into()),
         Item::Validator("val".into(), "v".into()),
     ];
     let max_len = if tier == Tier::Quick { 3 } else { 4 };
@@ -264,6 +275,24 @@ fn histories(run: &mut Run, tier: Tier) -> (u64, u64, u64) {
                 Err(e) => {
                     run.violation(Violation { signature: format!("generation-fails|{}", it.label()), what: format!("generating {} with a fresh generator fails: {e}", it.label()), case: json!({"engine":"c09a","item":it.label(),"level":level}) });
                     fresh.push(vec![]);
+                }
+            }
+        }
+        // the same item from another five fresh generators: identical bytes (nothing in one
+        // generation may depend on per-instance state such as a hash map's iteration order)
+        for (k, it) in items.iter().enumerate() {
+            for round in 0..5 {
+                let mut g = p.new_generator(tracing);
+                states += 1;
+                transitions += 1;
+                let again = generate_item(&mut g, &modules, it);
+                if !matches!(&again, Ok(b) if *b == fresh[k]) {
+                    run.violation(Violation {
+                        signature: format!("fresh-generators-disagree|{level}|{}", match it { Item::Test(..) => "test", Item::Fn(..) => "function", Item::Validator(..) => "validator" }),
+                        what: format!("trace level {level}: {} generated by two fresh code generators gives different bytes (round {round}: {} vs {} bytes)", it.label(), again.as_ref().map(|b| b.len()).unwrap_or(0), fresh[k].len()),
+                        case: json!({"engine":"c09a","level":level,"item":it.label(),"fresh_round":round}),
+                    });
+                    break;
                 }
             }
         }
